@@ -614,6 +614,16 @@ pub fn run(tier: &str) -> i32 {
             sp.push((print_file(&f), doc.json()));
         }
     }
+    // failing checks on variables that hold literals, at file and at rule level, on either side of a comparison (the console
+    // reporters name the value without a path into the document), on plain, CloudFormation- and Terraform-shaped documents
+    for lit in ["10", "\"s\"", "[1, 2]", "{\"k\": 1}", "true", "1.5"] {
+        for chk in ["%v is_string", "%v is_list", "%v is_struct", "%v !exists", "%v == 2", "%v != 10", "a == %v", "a in %v", "%v in [5, \"x\"]", "%v < 0", "some %v == 7"] {
+            for dj in ["{\"a\":1}", "{\"a\":1,\"Resources\":{\"r\":{\"Type\":\"T\",\"Properties\":{\"x\":1}}}}", "{\"a\":1,\"resource_changes\":[{\"address\":\"t.n\",\"change\":{\"after\":{\"x\":1}}}]}"] {
+                sp.push((format!("let v = {}\nrule r {{ {} <<on a literal>> }}\nrule ok {{ a exists }}\n", lit, chk), dj.to_string()));
+                sp.push((format!("rule r {{\n  let v = {}\n  {}\n}}\n", lit, chk), dj.to_string()));
+            }
+        }
+    }
     let r3 = crate::par::run(sp.len(), rep.seed as u64, None, Acc::new, |k, acc| {
         check_pair_all_configs(&sp[k].0, &sp[k].1, &cfgs, acc);
     }, Acc::merge);
